@@ -161,7 +161,7 @@ CHECKS = {
                      "sizes), config_path_spec / config_path_cwd_independent. The three parameters of main() the model depends on are "
                      "read off vela.py's AST (or identified behaviourally) on every run.",
                 note=TB + "; ConfigParser/argparse/os.path modelled not verified; open finding: CLI internal default is the i.MX93 table"),
-    "C11": dict(cat="translation_validation", ref="7/C11", technique="Coq-proved preservation validator (check_preserved_sound) on (source, output) model summaries of real compilations; matching supplied as checked witness",
+    "C11": dict(cat="translation_validation", ref="7/C11", technique="Coq-proved preservation validator (check_preserved_sound) on (source, output) model summaries of real compilations; matching supplied as checked witness; Coq theorem output_list_restored for the reader/writer treatment of the output list, reader run against the extracted model",
                 text="Theorem check_preserved_sound (Coq): acceptance implies the same subgraph inputs/outputs in order with equal "
                      "(name, shape, type, quantisation); every CPU-resident operator of the output is a distinct source operator "
                      "with equal code, custom code, version, option fields, custom option bytes, constant operand contents and "
@@ -169,7 +169,10 @@ CHECKS = {
                      "that disappeared has its surviving outputs produced by an Ethos-U operator or folded to a constant. Run on "
                      "generated networks mixing supported and unsupported operators (types, shapes, dtypes, dynamic weights, "
                      "third-party custom op, several outputs); additionally each output is re-read with Vela's reader and the plain "
-                     "flatbuffer walker. Sampled compilations.",
+                     "flatbuffer walker. Sampled compilations. Theorems output_list_restored / output_list_held_once (model/OutputList.v, unbounded): "
+                     "the reader's duplicate-free output list plus recorded positions, after any elementwise rewrite and any appended "
+                     "virtual outputs, is restored by the writer to the source's list (length, order, repetitions); the real reader is "
+                     "compared with the extracted dedup / positions on every plan.",
                 note=TB + "; tools/tflsum.py; 56-bit hash signatures; empty options table == absent options table"),
     "C12": dict(cat="translation_validation", ref="7/C12", technique="Coq-proved arena-plan validator (check_arena_sound) run on the output model, stream footprints and summary CSV of real compilations",
                 text="Theorem check_arena_sound (Coq): acceptance implies that tensors live at a common time step never share a byte, "
